@@ -20,6 +20,8 @@ BASE = {
     "ts": ("TS", {2: [cd.op("set", (), (5,))], 3: [cd.op("set", (), (5,))]}, 5),
     "tsl": ("TSL", {1: [cd.op("set", (0,), (1,))], 3: [cd.op("set", (2,), (2,)), cd.op("set", (0,), (3,))]}, 4),
     "tsd": ("TSD", {1: [cd.op("set", (1,), (1,)), cd.op("set", (2,), (2,))], 2: [cd.op("del", (), (1,))], 3: [cd.op("set", (3,), (3,))]}, 4),
+    # composite invalidation: the whole bundle in cycle 2 (both fields written before), a later write in cycle 4
+    "tsbi": ("TSB", {1: [cd.op("set", (0,), (1,)), cd.op("set", (1,), (2,))], 2: [cd.op("inv")], 4: [cd.op("set", (1,), (5,))]}, 5),
     "tsw": ("TSW", {1: [cd.op("push", (), (1,))], 2: [cd.op("push", (), (2,))], 3: [cd.op("push", (), (3,))], 4: [cd.op("push", (), (4,))]}, 5),
 }
 
@@ -113,6 +115,22 @@ def c_tsd_capture_misses_key(ev):      # TSD cycle 3 adds key 3: capture_delta w
     e["cap"] = [{"r": [], "m": []}]
 
 
+def c_bundle_survives_invalidation(ev):   # cycle 3: the invalidated bundle still reads valid because one child kept its value
+    o = ev[probe(ev, 3)]["o"]
+    o["ok"] = 1
+    o["lmt"] = 2
+    o["ch"][1]["ok"] = 1
+    o["ch"][1]["v"] = 2
+    o["ch"][1]["lmt"] = 1
+
+
+def c_child_survives_invalidation(ev):    # cycle 5 (after the later write of field 1): field 0 is valid again without a write
+    o = ev[probe(ev, 5)]["o"]
+    o["ch"][0]["ok"] = 1
+    o["ch"][0]["v"] = 1
+    o["ch"][0]["lmt"] = 1
+
+
 def c_window_order(ev):
     o = ev[probe(ev, 4)]["o"]
     o["v"] = list(reversed(o["v"]))
@@ -174,6 +192,8 @@ CORRUPTIONS = [
     ("tsl", "CollTrace", "child modified in an idle cycle", c_child_flag, "C04.modified_true_without_write@consumer.child.TS"),
     ("tsd", "CollTrace", "present key reported removed", c_tsd_removed_present, "C05.removed_element_present_or_was_absent"),
     ("tsd", "CollTrace", "captured delta misses the added key", c_tsd_capture_misses_key, "C05.value_is_not_previous_plus_delta@consumer.capture_delta"),
+    ("tsbi", "CollTrace", "invalidated bundle stays valid (a child kept its value)", c_bundle_survives_invalidation, "C04.valid_after_invalidation@consumer.root.TSB"),
+    ("tsbi", "CollTrace", "child of an invalidated bundle valid again without a write", c_child_survives_invalidation, "C04.valid_after_invalidation@consumer.child.TS"),
     ("tsw", "CollTrace", "window order reversed", c_window_order, "C05.window_is_not_last_n_pushes"),
     ("tsw", "CollTrace", "window all_valid below the minimum count", c_window_valid_early, "C05.window_valid_before_min_count"),
     ("tss", "RecordReplayTrace", "change a replayed delta", c_replayed_delta, "C20.replayed_delta_differs"),
@@ -188,7 +208,7 @@ CORRUPTIONS = [
 
 def main():
     hg.build(("coll",))
-    cases = {k: cd.Case(k, shape, cyc, end, 2, True, "selftest") for k, (shape, cyc, end) in BASE.items()}
+    cases = {k: cd.Case(k, shape, cyc, end, 2, not cd.Case(k, shape, cyc, end, 2, True, "x").has_inv, "selftest") for k, (shape, cyc, end) in BASE.items()}
     names = list(cases)
     traces = hg.run_driver("coll", [cases[k].scn for k in names])
     for k, tr in zip(names, traces):
@@ -199,6 +219,8 @@ def main():
     rows = []
     for k in names:       # baselines
         for spec, sel in (("CollTrace", cd.graph1), ("RecordReplayTrace", cd.rr_events)):
+            if spec == "RecordReplayTrace" and not cases[k].rr:
+                continue      # an invalidation is not a tick: C20 scenarios contain none
             rows.append((k, spec, "(unchanged)", None))
             items[spec].append({"id": len(rows) - 1, "prog": {"shape": cd.SHAPES[cases[k].shape]}, "ev": sel(cases[k].events)})
     for base, spec, what, fn, clause in CORRUPTIONS:
